@@ -235,6 +235,11 @@ func (w *World) typeOfSpec(src string, sig *types.Signature) types.Type {
 			put(resName(i), sig.Results().At(i).Type())
 		}
 	}
+	for n, t := range w.extraTypes {
+		if _, ok := names[n]; !ok {
+			put(n, t)
+		}
+	}
 	env := &Env{w: w, names: names, st: NewState(), old: NewState(), lets: map[string]SExpr{}}
 	tv, err := env.EvalAny(ex)
 	if err != nil {
@@ -621,6 +626,10 @@ func (w *World) computeModsets() {
 					add("G$allocTop", v, d)
 				case *ssa.MakeClosure, *ssa.MakeInterface:
 					add("G$allocTop")
+				case *ssa.Range:
+					if m, ok := ins.X.Type().Underlying().(*types.Map); ok {
+						add("G$allocTop", w.VisitedHeap(m))
+					}
 				case *ssa.Convert:
 					if _, ok := ins.Type().Underlying().(*types.Slice); ok {
 						add("G$allocTop")
